@@ -115,8 +115,9 @@ void FFT_Processor_Spqlios::execute_direct_torus32(Torus32 *res, const double *a
 }
 
 FFT_Processor_Spqlios::~FFT_Processor_Spqlios() {
-    //delete (tables_direct);
-    //delete (tables_reverse);
+    delete_fft_table(tables_direct);
+    delete_ifft_table(tables_reverse);
+    delete[] reva;
     delete[] cosomegaxminus1;
 }
 
